@@ -12,7 +12,7 @@ from mc import exact as X
 from mc.compare import proj_eq
 from mc.core import family, lattice
 
-ANGLES = [k * math.pi / 12 for k in range(-12, 13)] + [math.atan2(4, 3), -math.atan2(4, 3), math.atan2(5, 12), -math.atan2(5, 12), math.atan2(3, 4)]
+ANGLES = [k * math.pi / 12 for k in range(-12, 13)] + [1e-3, -1e-4, math.pi / 2 - 1e-4, math.pi - 1e-5] + [math.atan2(4, 3), -math.atan2(4, 3), math.atan2(5, 12), -math.atan2(5, 12), math.atan2(3, 4)]
 
 
 def affine_pts(n, k):
